@@ -210,7 +210,9 @@ TReply ==
             /\ inflight' = "none"
             /\ lastSt' = Line.st
             /\ nviol' = nviol + (IF ~critSeen THEN Soft("NonCriticalInert", Line.st = Dst(OpOf(Line.op)), <<Line.op, Line.st>>) ELSE 0)
-            /\ ObserveS(Line.st)
+            \* the reply carries the state the handler read when its transition returned: a GO_ERROR that waited
+            \* for the lock may have been recorded before the reply line
+            /\ (IF Line.st = Dst(OpOf(Line.op)) THEN Keep ELSE ObserveS(Line.st))
        ELSE UNCHANGED <<nviol, lastSt, expectSt, inflight>> /\ Keep
   /\ UNCHANGED <<scn, case, phase, place, dead, critFault, critSeen, gates, started, ended, finalSt>>
 
